@@ -126,6 +126,7 @@ func runC07(rec *vk.Rec, ci int) {
 		}
 	}
 	seq, replaysNonEmpty, replaysDenied, storedN, notStoredN := 0, 0, 0, 0, 0
+	bigBodies := 0
 	now := time.Now().Unix()
 	for s := 0; s < 45 && !violated; s++ {
 		c := cs[r.Intn(nc)]
@@ -144,8 +145,10 @@ func runC07(rec *vk.Rec, ci int) {
 				}
 			}
 			payload := fmt.Sprintf("m%d", seq)
-			if r.Chance(15) { // a large, incompressible body
-				payload += "|" + string(r.Bytes(r.Range(4200, 20000)))
+			if bigBodies < 4 && r.Chance(15) { // a large, incompressible body (at most four per case: everything a case stores
+				// must stay below the 64 KiB reply cap, which the model of this check does not describe - C06 does)
+				payload += "|" + string(r.Bytes(r.Range(4200, 7000)))
+				bigBodies++
 			}
 			topic := keys[kp] + "/" + chanStr(lv)
 			if ttl > 0 {
